@@ -79,6 +79,14 @@ func newPos(l *lookup, fileName, funcName string, line, column int) pos {
 	// return struct{}{}
 	fileNameIdx := l.Index("#" + fileName)
 	funcNameIdx := l.Index("#" + funcName)
+	// line and column have 16 bits each: saturate, so that a very long file or line cannot spill
+	// into the name indices (an error is then reported at line or column 65535)
+	if line > 0xffff {
+		line = 0xffff
+	}
+	if column > 0xffff {
+		column = 0xffff
+	}
 	return pos((fileNameIdx << 48) | (funcNameIdx << 32) | (line << 16) | column)
 }
 
